@@ -506,6 +506,7 @@ theorem run_cases (cfg : Cfg) (r : Retry) (rd : Bool) (q : Rq) (i : Nat) (o : Ou
   | response st ra => exact replyStep_cases cfg r rd q i _ rest st ra rfl (run_response ..)
   | located st ra => exact replyStep_cases cfg r rd q i _ rest st ra rfl (run_located ..)
   | connectError k => exact run_error_cases cfg r rd q i _ rest rfl (by simp only [runAttempts])
+  | sendError k => exact run_error_cases cfg r rd q i _ rest rfl (by simp only [runAttempts])
   | readError k => exact run_error_cases cfg r rd q i _ rest rfl (by simp only [runAttempts])
   | otherError => exact run_error_cases cfg r rd q i _ rest rfl (by simp only [runAttempts])
 
@@ -613,10 +614,12 @@ def POST : Str := [80, 79, 83, 84]
 def GET : Str := [71, 69, 84]
 
 /-- the request may have reached the server and the attempt did not end in a redirect that
-`urlopen` follows (a followed redirect is a new request by design): a read error, or a reply outside
-the redirect branch -/
+`urlopen` follows (a followed redirect is a new request by design): a send or read error, or a reply outside
+the redirect branch; a failure while the request was being written counts as well (what had been
+written may have arrived) -/
 def reachedServer (redirect : Bool) (o : Outcome) : Bool :=
   match o with
+  | .sendError _ => true
   | .readError _ => true
   | .response _ _ => true
   | .located _ _ => !follows redirect o
